@@ -132,6 +132,43 @@ def impl_select(ranges, qs, derivs=True):
     return evaluate_all(observe, qs, "python-api")
 
 
+def mixed_derivs(run, cases):
+    """Ranges of which some offer analytic derivatives and some do not (seed C08_6): at every query point - in particular exactly ON an inclusive start and one
+    ulp either side of every start - `deriv`/`deriv2` must be those of the SELECTED range: 100+fid / 200+fid for a range with analytic derivatives, and for a
+    derivative-less range the numerical derivative of that range's own (constant) function, which is exactly 0.0.  The tracers are constant and differ from
+    range to range, so a difference quotient taken through the composite potential across a start is of order 1e6."""
+    rng = run.rng
+    pool = list(cases)
+    rng.shuffle(pool)
+    nbad = 0
+    for c in pool[: run.n(250, 4000)]:
+        flags = [rng.random() < 0.5 for _ in c]
+        if all(flags) or not any(flags):
+            flags[rng.randrange(len(c))] = not flags[0]
+        has = {fid: fl for (_, _, fid), fl in zip(c, flags)}
+        f = create_Multi_Range_Potential_Form(*[Multi_Range_Defn(">=" if inc else ">", LATTICE[si], T8(fid, fl)) for (inc, si, fid), fl in zip(c, flags)])
+        qs = queries([si for (_, si, _) in c])
+        run.case(key=("api-mixed", tuple(c), tuple(flags)), kind="api-mixed-derivs/n=%d" % len(c))
+        run.traces += 1
+        desc = dict(ranges=[dict(marker=">=" if i else ">", start=LATTICE[s_], fid=f_, analytic_derivatives=fl) for (i, s_, f_), fl in zip(c, flags)], route="python-api")
+        for q in qs:
+            for r in real_rs(q):
+                v = f(r)
+                sel = None if v == 0.0 else int(v)
+                want1, want2 = (0.0, 0.0) if (sel is None or not has[sel]) else (100.0 + sel, 200.0 + sel)
+                got1 = f.deriv(r) if hasattr(f, "deriv") else None
+                got2 = f.deriv2(r) if hasattr(f, "deriv2") else None
+                if got1 is None or got2 is None or got1 != want1 or got2 != want2:
+                    nbad += 1
+                    if nbad <= 2:
+                        run.fail("range-deriv-from-other-range", "mixed analytic/numerical ranges: at r=%r range %s is selected (value %r) but deriv=%r deriv2=%r; the selected range's own "
+                                 "derivatives are %r and %r" % (r, sel, v, got1, got2, want1, want2), dict(case=desc, r=r, observed=[v, got1, got2], expected=[want1, want2]))
+                    break
+            else:
+                continue
+            break
+
+
 def potable_select(ranges, qs, first_unmarked):
     """same through a potable [Pair] entry; tracers as.polynomial 1000*fid fid (value 1000 fid + fid r, deriv fid)"""
     parts = []
@@ -234,6 +271,7 @@ def check(run):
                 else:
                     run.fail("range-order-dependence", "result depends on the order in which the ranges were listed (no two ranges share both start and marker)", dict(case=desc, differs_at_r=diffq))
     run.extra["order_dependent_duplicate_cases"] = ndup
+    mixed_derivs(run, [c for c in cases if len(c) >= 2])
     # potable route
     pot_cases = [c for c in cases if all(LATTICE[s] != float("-inf") for (_, s, _) in c)]
     rng.shuffle(pot_cases)
